@@ -821,6 +821,12 @@ impl Compiler {
             ctx.is_switch = true;
         }
 
+        // The case block is one scope of its own for let/const/function declarations
+        self.builder.emit(Op::PushScope);
+        for case in switch_stmt.cases.iter() {
+            self.emit_hoisted_functions(&case.consequent)?;
+        }
+
         // Collect case targets
         let mut case_jumps: Vec<super::JumpPlaceholder> = Vec::new();
         let mut default_jump: Option<super::JumpPlaceholder> = None;
@@ -883,6 +889,9 @@ impl Compiler {
         if let Some(jump) = jump_to_end {
             self.builder.patch_jump(jump);
         }
+
+        // Leave the case block scope (a break has already left it)
+        self.builder.emit(Op::PopScope);
 
         // Pop loop context (patches break jumps)
         self.pop_loop();
